@@ -21,7 +21,7 @@ func (tdRaceStream) Name() string               { return "tdrace" }
 func (tdRaceStream) CaseTimeout() time.Duration { return 120 * time.Second }
 func (tdRaceStream) NoModel() bool              { return true }
 func (tdRaceStream) Rule() string {
-	return "a live test directory (plain listener) serving C concurrent clients (2..6) that issue binds, user / group / generic searches, adds, modifies and deletes, while application goroutines call SetUsers, SetGroups, SetControls, SetTokenGroups, SetAllowAnonymousBind and the getters in a loop; run under the race detector; oracle: no race report with a frame in github.com/jimlambrt/gldap, no panic, every request answered; non-trivial = every scenario, distinct by seed"
+	return "a live test directory (plain listener) serving C concurrent clients (2..6) that issue binds (also with an empty password), user / group / generic searches, adds, modifies and deletes, while application goroutines call SetUsers, SetGroups, SetControls, SetTokenGroups, SetAllowAnonymousBind and the getters in a loop; run under the race detector; oracle: no race report with a frame in github.com/jimlambrt/gldap, no panic, every request answered; non-trivial = every scenario, distinct by seed"
 }
 
 func (tdRaceStream) Generate(rng *rand.Rand, n int, thorough bool) []Case {
@@ -109,7 +109,9 @@ func (tdRaceStream) Impl(c Case) string {
 				id := int64(i + 1)
 				var r Req
 				dn := fmt.Sprintf("cn=u%d-%d,%s", ci, rng.Intn(4), testdirectory.DefaultUserDN)
-				switch rng.Intn(8) {
+				switch rng.Intn(9) {
+				case 8:
+					r = Req{Kind: "bind", ID: id, DN: "cn=alice," + testdirectory.DefaultUserDN, Pass: ""} // anonymous
 				case 0:
 					r = Req{Kind: "bind", ID: id, DN: "cn=alice," + testdirectory.DefaultUserDN, Pass: "password"}
 				case 1:
